@@ -65,6 +65,8 @@ def routes(dim, call, sigma):
                 yield name + ":X*(Y*p)", (lambda f=f: f(ha) * np.asarray(f(hb) * P).flatten()), which
             elif name != "UnitDualQuaternion":
                 yield name + ":X.inv()*(X*p)", (lambda f=f: f(ha).inv() * np.asarray(f(ha) * P).flatten()), which
+            if name == "UnitDualQuaternion" and mode == "(XY)p":
+                yield name + ":(X*Y).SE3()*p", (lambda f=f: (f(ha) * f(hb)).SE3() * P), which
         return
     if call["op"] == "many-inv":
         hs = call["poses"]
@@ -107,6 +109,8 @@ def routes(dim, call, sigma):
             yield "SO3*", (lambda: SO3(R) * P), "rot"
             yield "UnitQuaternion*", (lambda: UnitQuaternion(q) * P), "rot"
             yield "UnitQuaternion(R)*", (lambda: UnitQuaternion(SO3(R)) * P), "rot"
+            # ... and through the pose recovered from the unit dual quaternion
+            yield "UnitDualQuaternion.SE3()*", (lambda: UnitDualQuaternion(SE3(T)).SE3() * P), "full"
             if form != "matrix":
                 yield "UnitDualQuaternion*", (lambda: UnitDualQuaternion(SE3(T)) * P), "full"
                 if form in ("list", "tuple", "array"):
@@ -126,6 +130,14 @@ def routes(dim, call, sigma):
             yield "SE3[k]*", (lambda: SE3([gamma.T4(h, sigma) for h in hs]) * P), "full"
             yield "SO3[k]*", (lambda: SO3([gamma.R3(h) for h in hs]) * P), "rot"
             yield "UnitQuaternion[k]*", (lambda: UnitQuaternion([UnitQuaternion(gamma.qvec(h)) for h in hs]) * P), "rot"
+            # the rotation-matrix route of a multi-valued object: its .R stack, one matrix per value
+            Pv = np.asarray(P, dtype=float).flatten()
+            yield "UnitQuaternion[k].R@", (lambda: np.column_stack(
+                [np.asarray(UnitQuaternion([UnitQuaternion(gamma.qvec(h)) for h in hs]).R)[i] @ Pv for i in range(len(hs))])), "rot"
+            yield "SO3[k].R@", (lambda: np.column_stack([np.asarray(SO3([gamma.R3(h) for h in hs]).R)[i] @ Pv for i in range(len(hs))])), "rot"
+            yield "SE3[k].R@+t", (lambda: np.column_stack(
+                [np.asarray(SE3([gamma.T4(h, sigma) for h in hs]).R)[i] @ Pv + np.asarray(SE3([gamma.T4(h, sigma) for h in hs]).t)[i]
+                 for i in range(len(hs))])), "full"
         else:
             yield "SE2[k]*", (lambda: SE2([gamma.T3(h, sigma) for h in hs]) * P), "full"
             yield "SO2[k]*", (lambda: SO2([gamma.T3(h)[:2, :2] for h in hs]) * P), "rot"
